@@ -26,6 +26,13 @@ fn cases(ob: &str) -> Vec<String> {
         out.push(format!("bytes:{}", crate::hex(format!("{}e{}{}", m, sg, e).as_bytes())));
         out.push(format!("bytes:{}", crate::hex(format!("(1 #u8({}e{}{}) . '#d{}e{}{})", m, sg, e, m, sg, e).as_bytes())));
     } } }
+    // digit runs around and beyond every integer width, alone and inside tokens (every option set: leading-digit symbols re-read the token)
+    for d in ["18446744073709551615", "18446744073709551616", "99999999999999999999", "340282366920938463463374607431768211456", "9223372036854775808", "4294967296", "00000000000000000000000001"] {
+        for (pre, post) in [("", ""), ("-", ""), ("+", ""), ("", "x"), ("", "."), ("", "e"), ("", "e+"), ("#x", ""), ("#b", ""), ("#u8(", ")"), ("(a . ", ")"), ("", "/2"), ("", ":"), ("?", ""), ("#\\x", "")] {
+            out.push(format!("bytes:{}", crate::hex(format!("{}{}{}", pre, d, post).as_bytes())));
+        }
+    }
+    out.push(format!("bytes:{}", crate::hex("9".repeat(400).as_bytes()))); out.push(format!("bytes:{}", crate::hex(format!("1.{}", "9".repeat(400)).as_bytes()))); out.push(format!("bytes:{}", crate::hex(format!("1e{}", "9".repeat(40)).as_bytes())));
     // long and odd character names, encoded surrogates / out-of-range scalars at token starts and in character literals
     for t in [&b"#\\backspacely"[..], b"#\\abcdefghijklmnopqrstuvwxyz", b"(#\\nullnullnull x)", b"#\\x41414141414141414141", b"?\\^abcdefghijkl", b"#\\spacespacespace #\\a",
               b"\xed\xa0\x80", b"#\\\xed\xa0\x80", b"#\\\xf4\x90\x80\x80", b"?\xf5\x80\x80\x80", b"(\xed\xbf\xbf)", b"?\\\xf4\x90\x80\x80", b"\xf7\xbf\xbf\xbf x", b"'\xed\xa0\x80", b"\xe0\x80\x80", b"\xc0\x80", b"#\\\xc1\xbf",
